@@ -36,6 +36,11 @@ type ExtCase struct {
 	Request string    `json:"request"`
 	Vars    string    `json:"vars,omitempty"`
 	Class   string    `json:"class"` // syntax | validation | variables | field_errors | success
+	// Entry: "" = Do. "plan" / "cache": the request is planned (PlanQuery / a PlanCache miss) while only the first
+	// len(Exts)-Late extensions are registered, the others are added with Schema.AddExtensions afterwards, and then the
+	// stored plan is executed (ExecutePlan / after a cache hit). Only the execution phases exist on that path.
+	Entry string `json:"entry,omitempty"`
+	Late  int    `json:"late,omitempty"`
 }
 
 type extEvent struct {
@@ -146,10 +151,16 @@ func c17Oracle(c *ExtCase) string {
 	}
 	m := kitchenModel()
 	w := &ref.World{S: m, Salt: 7, Outcomes: map[string]ref.Outcome{"nn": {Kind: "err"}, "o/nn": {Kind: "panic_err"}, "l/0/nn": {Kind: "err"}, "f": {Kind: "valerr"}}}
-	b, err := build.New(m, w, build.Options{Extensions: exts})
+	early := exts
+	if c.Entry != "" {
+		early = exts[:len(exts)-c.Late]
+	}
+	b, err := build.New(m, w, build.Options{Extensions: early})
 	if err != nil {
 		return "HARNESS: " + err.Error()
 	}
+	sess := &build.Session{W: w}
+	ctx := build.WithSession(context.Background(), sess)
 	var res *graphql.Result
 	escaped := ""
 	func() {
@@ -158,7 +169,42 @@ func c17Oracle(c *ExtCase) string {
 				escaped = fmt.Sprint(r)
 			}
 		}()
-		res = graphql.Do(graphql.Params{Schema: b.Schema, RequestString: c.Request, Context: context.Background()})
+		switch c.Entry {
+		case "":
+			res = graphql.Do(graphql.Params{Schema: b.Schema, RequestString: c.Request, Context: ctx})
+		case "plan":
+			doc, perr := parseText(c.Request)
+			if perr != nil {
+				res = &graphql.Result{Errors: gqlerrors.FormatErrors(perr)}
+				return
+			}
+			if vr := graphql.ValidateDocument(&b.Schema, doc, nil); !vr.IsValid {
+				res = &graphql.Result{Errors: vr.Errors}
+				return
+			}
+			plan, err := graphql.PlanQuery(&b.Schema, doc, "")
+			if err != nil {
+				res = &graphql.Result{Errors: gqlerrors.FormatErrors(err)}
+				return
+			}
+			log.events = nil // what happened before the plan existed is not part of this execution
+			b.Schema.AddExtensions(exts[len(early):]...)
+			res = graphql.ExecutePlan(plan, graphql.ExecuteParams{Schema: b.Schema, Context: ctx})
+		case "cache":
+			pc := graphql.NewPlanCache(graphql.PlanCacheOptions{})
+			if pr := pc.Get(&b.Schema, c.Request, ""); pr.Plan == nil {
+				res = &graphql.Result{Errors: pr.Errors}
+				return
+			}
+			log.events = nil
+			b.Schema.AddExtensions(exts[len(early):]...)
+			pr := pc.Get(&b.Schema, c.Request, "")
+			if pr.Plan == nil {
+				res = &graphql.Result{Errors: pr.Errors}
+				return
+			}
+			res = graphql.ExecutePlan(pr.Plan, graphql.ExecuteParams{Schema: b.Schema, Context: ctx})
+		}
 	}()
 	dump := func() string {
 		var sb strings.Builder
@@ -203,8 +249,26 @@ func c17Oracle(c *ExtCase) string {
 				evs = append(evs, e)
 			}
 		}
-		if m := checkExtTrace(x, evs, c.Class, len(panicked) > 0); m != "" {
+		if m := checkExtTrace(x, evs, c.Class, len(panicked) > 0, c.Entry != ""); m != "" {
 			return fmt.Sprintf("extension %s: %s\n  its events: %v\n  all events: %s\n  request: %s", x.Name, m, evs, dump(), c.Request)
+		}
+		// one resolve notification per executed field: every resolver that ran was announced to this extension, once
+		if len(panicked) == 0 {
+			seen := map[string]int{}
+			for _, e := range evs {
+				if e.Hook == "ResolveFieldDidStart" {
+					seen[e.Detail]++
+				}
+			}
+			for _, call := range sess.Snapshot() {
+				if call.Kind != "resolve" {
+					continue
+				}
+				if k := ref.PathKey(call.Path); seen[k] != 1 {
+					return fmt.Sprintf("extension %s: the resolver of the field at %s ran, and the extension was notified of it %d time(s)\n  its events: %v\n  request: %s (entry %q, %d extension(s) registered after planning)",
+						x.Name, k, seen[k], evs, c.Request, c.Entry, c.Late)
+				}
+			}
 		}
 	}
 	return ""
@@ -212,7 +276,7 @@ func c17Oracle(c *ExtCase) string {
 
 // checkExtTrace validates one extension's events: pipeline order, proper nesting, every phase
 // that was started (its start hook returned) finished exactly once with that phase's outcome.
-func checkExtTrace(x *ExtSpec, evs []extEvent, class string, anyPanic bool) string {
+func checkExtTrace(x *ExtSpec, evs []extEvent, class string, anyPanic bool, executionOnly bool) string {
 	ok := func(h string) bool { return x.Policy[h] == "" }
 	rank := map[string]int{"Init": 0, "ParseDidStart": 1, "ParseFinish": 2, "ValidationDidStart": 3, "ValidationFinish": 4, "ExecutionDidStart": 5,
 		"ResolveFieldDidStart": 6, "ResolveFieldFinish": 6, "ExecutionFinish": 7, "HasResult": 8, "GetResult": 9}
@@ -253,7 +317,16 @@ func checkExtTrace(x *ExtSpec, evs []extEvent, class string, anyPanic bool) stri
 			openResolve = openResolve[:len(openResolve)-1]
 		}
 	}
-	if count["Init"] != 1 {
+	if executionOnly {
+		// a stored plan is executed: there is no init, parse or validation phase, and the execution phase is there
+		// whenever the request got as far as a plan
+		if count["Init"]+count["ParseDidStart"]+count["ValidationDidStart"] != 0 {
+			return "executing a stored plan went through init / parse / validation hooks"
+		}
+		if (class == "variables" || class == "field_errors" || class == "success") && count["ExecutionDidStart"] != 1 {
+			return fmt.Sprintf("ExecutionDidStart called %d times for the execution of a stored plan", count["ExecutionDidStart"])
+		}
+	} else if count["Init"] != 1 {
 		return fmt.Sprintf("Init called %d times", count["Init"])
 	}
 	pairs := [][2]string{{"ParseDidStart", "ParseFinish"}, {"ValidationDidStart", "ValidationFinish"}, {"ExecutionDidStart", "ExecutionFinish"}}
@@ -331,6 +404,14 @@ func TestC17(t *testing.T) {
 				}
 			}
 			c.Exts = append(c.Exts, x)
+		}
+		if n > 0 && gen.Chance(rt, 35, "storedPlan") {
+			c.Entry = []string{"plan", "cache"}[gen.Uniform(rt, 2, "entry")]
+			c.Late = gen.Uniform(rt, n+1, "late")
+			stats.R.Class("entry_" + c.Entry)
+			if c.Late > 0 {
+				stats.R.Class("extension_registered_after_planning")
+			}
 		}
 		msg := c17Oracle(c)
 		stats.R.Class("class_" + c.Class)
